@@ -409,6 +409,73 @@ pub fn main(args: &Args) -> ! {
             machinery("vacuity guard: the server never sent anything to a spoofed post-handshake address");
         }
     }
+    // off-path probing by an authenticated peer: a (genuinely protected) packet carrying N PATH_CHALLENGE
+    // frames arrives from an address that is not the connection's path and never answers; whatever the
+    // server sends there stays within three times what came from there
+    {
+        let mut cases = vec![];
+        for n in [1usize, 2, 3, 4, 8, 16] {
+            for size in [0usize, 1200] {
+                for copies in [1usize, 2] {
+                    cases.push((n, size, copies));
+                }
+            }
+        }
+        let (res, capped) = e3(cases, dl, |&(n, size, copies)| {
+            guarded(|| {
+                let cfg = cfg_by_name("default");
+                let mut p = std_pair_pre(base, &cfg, Wl::W1, ReadMode::default(), |_| {});
+                let mut g = 0;
+                while g < 3000 && !crate::scen::workload_done(&p) {
+                    g += 1;
+                    if !p.w.step() {
+                        break;
+                    }
+                }
+                let mut pup = puppet::puppet_for(&p, proto::Side::Client).expect("puppet");
+                let dst = p.w.nodes[SERVER].addr;
+                let off = addr(8);
+                for c in 0..copies {
+                    let frames: Vec<WFrame> = (0..n).map(|i| WFrame::PathChallenge(0x1000 * (c as u64 + 1) + i as u64)).collect();
+                    let d = pup.packet_raw(2, &crate::wire::frames_bytes(&frames), size);
+                    p.w.inject(off, dst, d, Duration::from_micros(10 * c as u64));
+                }
+                let until = p.w.t + Duration::from_secs(5);
+                let mut g = 0;
+                while g < 3000 && p.w.next_event().map_or(false, |(at, _)| at <= until) {
+                    g += 1;
+                    p.w.step();
+                }
+                let (v, _) = amp_violations(&p);
+                let sent: Vec<usize> = p.w.recs.iter().filter_map(|r| match r { Rec::Emit { node, dst, data, .. } if *node == SERVER && *dst == off => Some(data.len()), _ => None }).collect();
+                (v, sent.iter().sum::<usize>(), sent.len())
+            })
+        });
+        rep.exhaustive &= !capped;
+        let mut answered = 0u64;
+        for ((n, size, copies), r) in &res {
+            rep.evaluations += 1;
+            let rj = json!({"check":"c07","kind":"offpath-probe","challenges":n,"size":size,"copies":copies});
+            match r {
+                Err(e) => rep.violation(Violation { signature: "panic".into(), what: format!("off-path probe with {n} challenges: panic: {e}"), replay: rj }),
+                Ok((v, sent, responses)) => {
+                    if *sent > 0 {
+                        answered += 1;
+                    }
+                    if let Some((sig, what)) = v.first() {
+                        // one padded response per probing datagram is the known behaviour (F38: off-path
+                        // responses are charged to no budget); more responses than probes is not
+                        let kind = if *responses <= *copies { "one-response-per-probe" } else { "more-responses-than-probes" };
+                        rep.violation(Violation { signature: format!("{sig}:off-path-probe:{kind}"), what: format!("{copies} probing packet(s) of {} bytes with {n} PATH_CHALLENGE frames each from an address that is not the path: {what}", if *size == 0 { "minimal".to_string() } else { size.to_string() }), replay: rj });
+                    }
+                }
+            }
+        }
+        rep.part("off_path_probes", json!({"cases": res.len(), "answered": answered, "capped": capped}));
+        if answered == 0 {
+            machinery("vacuity guard: no off-path probe was ever answered");
+        }
+    }
     // stateless resets and short initials: direct endpoint calls
     let cfg = cfg_by_name("default");
     let p0 = std_pair_pre(base, &cfg, Wl::W0, ReadMode::default(), |_| {});
